@@ -14,11 +14,15 @@ let absval file handle tyid =
   let joined : (int, bool) Hashtbl.t = Hashtbl.create 8 in
   let setup : (int, bool) Hashtbl.t = Hashtbl.create 8 in
   let events = ref 0 in
+  let init = ref None and evs = ref [] and lastw = ref None in
   let nd s = n_of_decimal s and ds x = decimal_of_n x in
+  let ds_ = ds in
   let rec nat_of_int x = if x <= 0 then O else S (nat_of_int (x - 1)) in
   let state () = match !st with Some s -> s | None -> failwith "no state" in
   let step lineno ev what =
     incr events;
+    evs := ev :: !evs;
+    (match ev with VWrite (_, v) -> lastw := Some v | _ -> ());
     match vstep (state ()) ev with
     | Some s' -> st := Some s'
     | None -> diff "line %d: abstract event %s is not enabled in the value model" lineno what in
@@ -32,7 +36,8 @@ let absval file handle tyid =
          (* host + clients 1..n-1, all in the session from the start of the abstract run; late joiners
             are handled by VJoin only for peers beyond the initial ones: scenarios used here connect
             every peer before the first write *)
-         st := Some (vinit (nat_of_int (!n - 1)))
+         st := Some (vinit (nat_of_int (!n - 1)));
+         init := !st
      | "OP" :: p :: "setup" :: _ -> Hashtbl.replace setup (int_of_string p) true
      | [ "OP"; p; "write"; h; t; v ] when h = handle && t = tyid ->
          step (!i + 1) (VWrite (n_of_int (int_of_string p), nd v)) (Printf.sprintf "write %s by %s" v p)
@@ -82,7 +87,22 @@ let absval file handle tyid =
          end
      | [ "QUIESCENT" ] ->
          incr checked;
-         if not (vquiescentb (state ())) then diff "line %d: the real run is quiescent, the value model is not" (!i + 1)
+         if not (vquiescentb (state ())) then diff "line %d: the real run is quiescent, the value model is not" (!i + 1);
+         (* the premises of the convergence theorems, evaluated on the event sequence of this real run *)
+         (match !init with
+          | Some s0 when !events > 0 ->
+              let tr = List.rev !evs in
+              let co = causally_ordered s0 tr in
+              let ds = ds_from None s0 tr && jr_from [] s0 tr in
+              Printf.printf "ABSPREMISE causal=%d drainsep=%d writes=%d\n" (if co then 1 else 0) (if ds then 1 else 0)
+                (List.length (List.filter (fun e -> match e with VWrite _ -> true | _ -> false) tr));
+              if ds && not co then diff "line %d: a drain-separated history is not causally ordered (C02_drain_separated_is_causal fails on it)" (!i + 1);
+              if co && vquiescentb (state ()) then
+                List.iter (fun p ->
+                    incr checked;
+                    if pcur (state ()) p <> !lastw then
+                      diff "line %d: causally ordered history, quiescent, yet peer %s does not hold the last write in the value model (C02_causal_converge fails on it)" (!i + 1) (ds_ p)) (n_of_int 0 :: vconn (state ()))
+          | _ -> ())
      | _ -> ());
     incr i
   done;
